@@ -43,6 +43,8 @@ func main() {
 		reqMain(os.Args[2:])
 	case "err":
 		errMain(os.Args[2:])
+	case "meta":
+		metaMain(os.Args[2:])
 	default:
 		fmt.Fprintf(os.Stderr, "unknown family %q\n", os.Args[1])
 		os.Exit(2)
